@@ -18,6 +18,7 @@ func checkC05(c *Ctx) {
 		"Also: a sync.WaitGroup counting jobs must not be waited on by a detached goroutine while a restart can Add to it (documented reuse restriction, panics); before its first wait the scheduler recomputes Next of every existing entry; the blocking drain of the timer channel is unreachable with the timer the wake-up case consumed; no path starts one entry twice in one wake-up iteration. " +
 		"(S9) every time handed to Entry.Schedule.Next (initial pass, add case, wake-up bookkeeping) derives from X.In(Cron.location) through now()/phis/parameters. " +
 		"Variables are followed as LOCATIONS (an SSA web through parameters, a local cell, a field of a local struct): 'now refreshed after the wait', 'timer cleared after it fired', 'nothing after stop' and 'timer re-armed after every change of entries/Next' (S7-rearm) are decided by flows that observe the assignments to the location and track flag variables (boolean phis, nil tests), so exit-by-flag loops and value+flag pairs are followed exactly; callbacks handed to same-package helpers (withLock(func(){...})) and calls through unexported func-typed fields are followed; the mutex state is part of the flow. " +
+		"(S3-wait-after-stop) in the exported method that sends the stop request, every start of the wait on the job counter (go statement whose goroutine reaches Wait, or a synchronous Wait) follows the send or a read of running==false. (S10) entry IDs come from a counter field of Cron (role: the field of Entry.ID's type whose value reaches Entry.ID): it is read and written only with the mutex held, it is only ever assigned itself plus a non-zero constant, and on every path a critical section that takes a value for an ID also advances it — so two live entries never share an ID and Remove(id) cannot hit another entry. " +
 		"NOT decided: once-per-activation over all histories and interleavings, timing ('never early' only as a guard on every start), behaviour under clock jumps, the values Entries() returns beyond 'Prev is the instant that was compared', the chain wrappers' semantics, user Schedule implementations."
 	r.Assumptions = append(r.Assumptions,
 		"interface calls (Schedule.Next, Logger, clock.Clock, clock.Timer) do not touch Cron.entries, Entry.Next/Prev or the Cron's channels",
@@ -47,6 +48,10 @@ func checkC05(c *Ctx) {
 	a.checkStopContext()
 	r.Rule("C05.S3-waiter-reuse", "a sync.WaitGroup counting jobs is not waited on by a detached goroutine while a restart can Add to it (reuse panic)", 1)
 	a.checkWaiterReuse()
+	r.Rule("C05.S3-wait-after-stop", "the wait whose end completes Stop's context begins only after the stop request was handed to the scheduler (or running was read false)", 1)
+	a.checkWaitAfterHandoff()
+	r.Rule("C05.S10-id-unique", "entry IDs: the counter is accessed only under the mutex, and taking an ID and advancing the counter happen in one critical section", 2)
+	a.checkIDs()
 
 	r.Rule("C05.S5-stop-final", "after receiving the stop request the scheduler never waits again, starts a job or touches entries", 1)
 	r.Rule("C05.S5-remove-applied", "after receiving a removal request the scheduler removes that id from Cron.entries before waiting again; the remover keeps only entries with another ID", 2)
